@@ -23,8 +23,10 @@ pub enum TOp {
     LocalToggle,
     LocalTake,
     Restore,
+    /// `let _ = local_take();` – the saved override is thrown away
+    TakeDiscard,
 }
-pub const OPS: [TOp; 8] = [TOp::Enable, TOp::Disable, TOp::Toggle, TOp::LocalEnable, TOp::LocalDisable, TOp::LocalToggle, TOp::LocalTake, TOp::Restore];
+pub const OPS: [TOp; 9] = [TOp::Enable, TOp::Disable, TOp::Toggle, TOp::LocalEnable, TOp::LocalDisable, TOp::LocalToggle, TOp::LocalTake, TOp::Restore, TOp::TakeDiscard];
 
 #[derive(Clone, Copy, Debug, PartialEq, Eq, PartialOrd, Ord)]
 pub enum Flag {
@@ -82,6 +84,7 @@ impl RefState {
                     self.local[t] = f;
                 }
             }
+            TOp::TakeDiscard => self.local[t] = Flag::Global,
         }
     }
 }
@@ -89,7 +92,7 @@ impl RefState {
 /// command slot shared between the explorer and one worker thread (spin-waited: three threads
 /// on a 16-core box, and a futex round trip per step dominated the run time otherwise)
 struct Slot {
-    /// 0 = idle, 1..=8 = operation index + 1, 9 = observe only, 10 = exit
+    /// 0 = idle, 1..=9 = operation index + 1, 10 = observe only, 11 = exit
     cmd: std::sync::atomic::AtomicU32,
     /// 0 = none, 1 = false, 2 = true
     obs: std::sync::atomic::AtomicU32,
@@ -115,8 +118,8 @@ fn worker(slot: std::sync::Arc<Slot>) {
         }
         idle = 0;
         match c {
-            10 => return,
-            9 => {}
+            11 => return,
+            10 => {}
             n => match OPS[(n - 1) as usize] {
                 TOp::Enable => tracing_enabled::enable(),
                 TOp::Disable => tracing_enabled::disable(),
@@ -129,6 +132,9 @@ fn worker(slot: std::sync::Arc<Slot>) {
                     if let Some(t) = token.take() {
                         tracing_enabled::restore(t)
                     }
+                }
+                TOp::TakeDiscard => {
+                    let _ = tracing_enabled::local_take();
                 }
             },
         }
@@ -154,7 +160,7 @@ fn take_obs(slot: &Slot) -> bool {
 
 fn send(slot: &Slot, op: Option<TOp>) -> bool {
     let code = match op {
-        None => 9,
+        None => 10,
         Some(o) => 1 + OPS.iter().position(|x| *x == o).unwrap() as u32,
     };
     slot.cmd.store(code, std::sync::atomic::Ordering::Release);
@@ -202,7 +208,7 @@ pub fn run_history(hist: &[(usize, TOp)]) -> Option<Divergence> {
         }
     }
     for s in &slots {
-        s.cmd.store(10, std::sync::atomic::Ordering::Release);
+        s.cmd.store(11, std::sync::atomic::Ordering::Release);
     }
     for h in handles {
         let _ = h.join();
@@ -389,7 +395,7 @@ pub fn run_c20(args: &Args) -> i32 {
             "traces_validated_against_impl": executions + schedules,
             "evaluations": executions + schedules,
             "distinct_nontrivial": cross_thread,
-            "rule": "non-trivial = engine-A histories in which BOTH threads perform operations (the isolation claim is about cross-thread effects). engine A: BFS over the reference states (global flag, two overrides, <=1 saved token per thread); from each state's shortest history every (thread, op) of the 8 operations followed by every suffix of length <= 1 (thorough 2), every state is additionally entered through one (thorough: two) alternative history, because the implementation may hold state the reference does not model; each history executed on two fresh OS threads driven in lock-step, both threads' is_enabled() compared with the reference after every step. engine B: loom on the unmodified tracing-enabled source (std shim exporting loom Cell / atomic / thread_local): every pair of programs of <= 2 operations (thorough: also 3-operation programs against <= 1-operation programs) on two loom threads, every interleaving loom's DPOR enumerates within the preemption bound, oracle = some sequential order respecting program order explains all observations and the final state.",
+            "rule": "non-trivial = engine-A histories in which BOTH threads perform operations (the isolation claim is about cross-thread effects). engine A: BFS over the reference states (global flag, two overrides, <=1 saved token per thread); from each state's shortest history every (thread, op) of the 9 operations (the 8 public ones, local_take both with its token kept and with it discarded) followed by every suffix of length <= 1 (thorough 2), every state is additionally entered through one (thorough: two) alternative history, because the implementation may hold state the reference does not model; each history executed on two fresh OS threads driven in lock-step, both threads' is_enabled() compared with the reference after every step. engine B: loom on the unmodified tracing-enabled source (std shim exporting loom Cell / atomic / thread_local): every pair of programs of <= 2 operations (thorough: also 3-operation programs against <= 1-operation programs) on two loom threads, every interleaving loom's DPOR enumerates within the preemption bound, oracle = some sequential order respecting program order explains all observations and the final state.",
             "engine_a": {"reference_states": shortest.len(), "executions": executions, "steps": steps, "suffix_length": suffix_len},
             "engine_b": lv,
             "exhaustive": true,
